@@ -223,12 +223,12 @@ impl Subscriber for Rec {
         } else {
             Par::Ctx
         };
-        let vals = TracedValues::<String>::from_values(a.values());
+        let vals = seen_in_values(a.values());
         self.push(Call::NewSpan { id, addr: addr_of(a.metadata()), data: CallSiteData::from(a.metadata()), parent, vals });
         Id::from_u64(id)
     }
     fn record(&self, s: &Id, v: &Record<'_>) {
-        self.push(Call::Record(s.into_u64(), TracedValues::<String>::from_record(v)));
+        self.push(Call::Record(s.into_u64(), seen_in_record(v)));
     }
     fn record_follows_from(&self, s: &Id, f: &Id) {
         self.push(Call::Follows(s.into_u64(), f.into_u64()));
@@ -241,7 +241,7 @@ impl Subscriber for Rec {
         } else {
             Par::Ctx
         };
-        let vals = TracedValues::<String>::from_event(e);
+        let vals = seen_in_event(e);
         self.push(Call::Event { addr: addr_of(e.metadata()), data: CallSiteData::from(e.metadata()), parent, vals });
     }
     fn enter(&self, s: &Id) {
